@@ -36,7 +36,12 @@ def stub_vm(it, mod, ev):
     vm = it.mem.alloc(L['size'], 'vm'); vt = it.mem.alloc(8 * max(n, 16), 'vtable')
     for k in range(max(n, 16)):
         nm = slots.get(k, 'slot%d' % k); it.mem.store(Ptr('vtable', 8 * k), Ptr('@fn:STUB_' + nm, 0), 8)
-        it.hooks['STUB_' + nm] = (lambda nm: lambda s, a: ev.append((nm, a, s.snap(a))) and None)(nm)
+        def rec(s, a, nm=nm):
+            ev.append((nm, a, s.snap(a)))
+            if nm == 'run':     # a program executes FP code: CFROUND leaves any rounding mode, arithmetic raises sticky exception flags -> the control/status word after it is arbitrary
+                s.mxcsr = z3.BitVec('mxcsr_after_run_%d' % len(ev), 32)
+            return None
+        it.hooks['STUB_' + nm] = rec
     it.mem.store(Ptr('vm', 0), vt, 8)
     return vm, L
 
